@@ -3,9 +3,9 @@ Driver engine `report` (C13): runs a plan of Model/Report.lean under a fault sch
 
 Request  {"engine":"report","op":"run","cfg":{…},"deadline":null|n,"now":n,"plan":PLAN,
           "fault":FAULT,"caller":"embedded"|"rpc"|"web","web":{…}}
-  cfg    {"d3","d15","d4","subq","subqStats": bool (default true), "coalesce":"perIteration" (default) |"abortAll"}
+  cfg    {"d3","d15","d4","subq","subqStats","recover": bool (default true), "coalesce":"perIteration" (default) |"abortAll"}
   ROW    {"k":key,"t":ts,"v":[vals…],"p":part,"sz":web size estimate}
-  FAULT  {"kind":"none"} | {"kind":"failAt","k":n} | {"kind":"stopAt","k":n} |
+  FAULT  {"kind":"none"} | {"kind":"failAt","k":n} | {"kind":"stopAt","k":n} | {"kind":"panicAt","k":n} |
          {"kind":"sleepAt","k":n,"d":n} | {"kind":"sizeCap","max":n}
   PLAN   {"op":"mock","rows":[ROW],"failAt":null|n,"sleepAt":null|[k,d]}
          {"op":"table","file":[[ROW,bool]],"mem":[ROW],"includeMem":b,"oomAt":null|c,
@@ -13,7 +13,7 @@ Request  {"engine":"report","op":"run","cfg":{…},"deadline":null|n,"now":n,"pl
          {"op":"cluster","parts":[{"rows":[ROW],"outcome":{"kind":"ok"|"noHandler"|"failAfter"|"silentAfter"|"retryAfter"|"eofAfter","k":n}
                                    (or "attempts":[{"kind":"stale"}|OUTCOME …], the queue of handlers)}],
                          "events":[{"e":"msg","p":n,"early":b}|{"e":"tick","d":n}|{"e":"timeout"}],"unflat":b}
-         {"op":"filter","mod":m,"rem":r,"errKey":null|key,"minVal":null|x,"p":PLAN}
+         {"op":"filter","mod":m,"rem":r,"errKey":null|key,"panicKeys":[key],"minVal":null|x,"p":PLAN}
                                                                           keep ⇔ key % m ≠ r  (minVal: ⇔ first value > x)
          {"op":"subq","sub":PLAN,"neg":b,"p":PLAN}                       keep ⇔ (key ∈ dims) xor neg, dim = key
          {"op":"group","div":d,"crosstab":b,"p":PLAN}                    group key = key / d, first-appearance order, values summed
@@ -61,6 +61,7 @@ def rpFault (j : Json) : R UFault := do
   | "stopAt" => pure (.stopAt (← nat j "k"))
   | "sleepAt" => pure (.sleepAt (← nat j "k") (← nat j "d"))
   | "sizeCap" => pure (.sizeCap (← nat j "max"))
+  | "panicAt" => pure (.panicAt (← nat j "k"))
   | k => throw s!"report: unknown fault {k}"
 
 /-- the other iteration of a batch (`SELECT * FROM t`: flatten, then its caller) as a callback
@@ -165,8 +166,13 @@ partial def rpPlan (j : Json) : R (Plan × List (Row × Nat)) := do
     let rm ← nat j "rem"
     let ek ← rpNatOpt j "errKey"
     let mv ← rpNatOpt j "minVal"
+    -- rows whose evaluation panics (a dimension of an unexpected type under SUBSTR/SPLIT/LEN)
+    let pks : List Nat := match j.getObjVal? "panicKeys" with
+      | .ok (Json.arr a) => a.toList.filterMap (fun x => x.getNat?.toOption)
+      | _ => []
     let incl : Row → Incl := fun r =>
-      if ek == some r.key then .err .filter
+      if pks.contains r.key then .err .panic
+      else if ek == some r.key then .err .filter
       else match mv with
         | some x => if x < r.vals.headD 0 then .keep r else .drop     -- HAVING a > x
         | none => if m == 0 || r.key % m != rm then .keep r else .drop
@@ -194,7 +200,7 @@ def rpCfg (j : Json) : R Cfg := do
     | .ok (Json.str "abortAll") => Coalesce.abortAll
     | _ => Coalesce.perIteration
   pure { d3 := boolD c "d3" true, d15 := boolD c "d15" true, d4 := boolD c "d4" true, subq := boolD c "subq" true,
-         subqStats := boolD c "subqStats" true, coalesce := co }
+         subqStats := boolD c "subqStats" true, recover := boolD c "recover" true, coalesce := co }
 
 def rpErrJson : Option Err → Json
   | none => Json.null
